@@ -36,7 +36,7 @@ var c07Ops = []string{"boolop", "wrapper", "engine", "engineOC", "polytree", "po
 
 func drawC07(t *rapid.T) *C07Case {
 	c := &C07Case{Op: rapid.SampledFrom(c07Ops).Draw(t, "op")}
-	c.Prec = rapid.SampledFrom([]int{2, 99, 0, 1, -1, 3, 5, 8, -8, -4, 7, -7}).Draw(t, "prec")
+	c.Prec = rapid.SampledFrom([]int{2, 99, 0, 1, -1, 3, 5, 8, -8, -4, 7, -7, 4, 6, -2, -3, -5, -6}).Draw(t, "prec") // all 17 + default
 	if c.Op == "rectclipSingle" || c.Op == "rectlinesSingle" {
 		c.Prec = 99 // these entry points take no precision
 	}
